@@ -170,6 +170,8 @@ def m2_rows(run, project):
     at = lp.target.id
     joins = find(lp, "''.join((M_a if M_c else M_b for (M_m, M_v) in zip(M_mp, M_vp)))")
     if len(joins) != 1:
+        if m2_rows_arithmetic(run, mod, f, lp, ev, at):
+            return
         raise AnalysisError("M2: bit-row construction of pretty_attrs not recognised")
     b = joins[0][1]
     mn, vn = norm(b["M_m"]), norm(b["M_v"])
@@ -219,3 +221,33 @@ def m2_rows(run, project):
     conds = [n for n in ast.walk(lp) if isinstance(n, (ast.Continue, ast.Break, ast.Return))]
     run.ob("M2", not conds, "no attribute row is skipped", "attribute loop contains continue/break/return",
            module=mod, node=lp, func="pretty_attrs", construct="pretty_attrs skip")
+
+
+def m2_rows_arithmetic(run, mod, f, lp, ev, at):
+    """second accepted family: the row is built arithmetically as
+         f"{field:0<w>b}{'.' * shift}".rjust(<8*size>, '.')
+    with field = (value & mask) >> shift, shift = trailing zeros of the mask, <w> = number of bits of the mask's span.
+    The zero padding to the field's width is essential: without it the leading zero bits of a field are swallowed by
+    the dot padding (those bits are then shown in no row)."""
+    rj = [c for c in ast.walk(lp) if isinstance(c, ast.Call) and isinstance(c.func, ast.Attribute) and c.func.attr == "rjust"
+          and isinstance(c.func.value, ast.JoinedStr) and len(c.args) == 2 and norm(c.args[1]) == "'.'"]
+    if len(rj) != 1:
+        return False
+    js = rj[0].func.value
+    fvs = [v for v in js.values if isinstance(v, ast.FormattedValue)]
+    if len(fvs) != 2:
+        return False
+    fld = fvs[0]
+    spec = fld.format_spec
+    spec_txt = norm(spec)[2:-1] if spec is not None else ""
+    padded = spec is not None and spec_txt.startswith("0") and spec_txt.endswith("b") and len(spec.values) >= 2
+    run.ob("M2", padded, "arithmetic bit row: the field is zero-padded to its width",
+           f"the field is formatted with `{{...:{spec_txt}}}`: leading zero bits of a multi-bit field are not printed, so the dot padding "
+           "takes their place and those bits appear in no row", module=mod, node=rj[0], func="pretty_attrs",
+           construct="pretty_attrs field width")
+    run.ob("M2", norm(fvs[1].value).replace(" ", "").startswith("'.'*"), "arithmetic bit row: dots below the field",
+           f"suffix is `{norm(fvs[1].value)}`", module=mod, node=rj[0], func="pretty_attrs", construct="pretty_attrs suffix")
+    ys = [y for y in ast.walk(lp) if isinstance(y, (ast.Yield, ast.YieldFrom))]
+    run.ob("M2", len(ys) == 1, "exactly one row per attribute", "the attribute loop does not yield exactly one row per attribute",
+           module=mod, node=lp, func="pretty_attrs", construct="pretty_attrs rows")
+    return True
